@@ -8,7 +8,7 @@ cd "$REPO" || exit 2
 export CARGO_NET_OFFLINE=true
 cargo nextest run --workspace --no-fail-fast --tool-config-file pb:/verif/scripts/nextest.toml --profile pb \
       --test-threads 8 --offline >/dev/null 2>&1
-python3 - "${CARGO_TARGET_DIR:-$REPO/target}/nextest/pb/junit.xml" <<'PY'
+python3 - "$REPO/target/nextest/pb/junit.xml" <<'PY'
 import json,sys,xml.etree.ElementTree as ET
 stable=set(json.load(open('/root/.vp/BASELINE.json'))['stable_pass'])
 ok=set(); failed=set()
